@@ -30,6 +30,8 @@ func c08Phases() []c08Phase {
 			procs: map[string]*ProcScript{"a": {Launches: [][]Action{{Exit(1)}, {}}}}, target: "a", policy: true, ticks: 3},
 		{id: "slowstop", yaml: projectYAML(nil, PC{Name: "a", Lines: []string{"shutdown:", "  timeout_seconds: 2"}}),
 			procs: map[string]*ProcScript{"a": {OnTerm: "ignore"}}, target: "a", ticks: 3},
+		// no kill time-out: the stop request returns at once and the command takes 3 s to go down (Terminating meanwhile)
+		{id: "slowdie", yaml: projectYAML(nil, PC{Name: "a"}), procs: map[string]*ProcScript{"a": {DieAfter: 3 * time.Second}}, target: "a", ticks: 4},
 	}
 }
 
